@@ -1228,3 +1228,40 @@ def r_validate_clears_dirty(ck, P, rid):
             ck.ok(R, '%s: dirty test at %s, every path to a return clears the flag' % (v.name, t.loc()))
     if n == 0:
         ck.incomplete(R, '%s has no branch on image_common.dirty' % v.name)
+
+
+def r_embedded_region_finalised(ck, P, rid='C20-R8'):
+    """T-PAIR: a region embedded in the image and initialised unconditionally by the constructor is finalised unconditionally by the
+    destructor - its storage outlives the flag that says whether it is in use (resetting the clip only clears the flag)."""
+    R = ck.rule(rid, 'every region embedded in an image that the common initialiser sets up unconditionally is finalised by the destructor on every path that destroys the image: the finalising call is guarded by nothing but the reference count (a clip that was set and then reset still owns its rectangle list)', floor=1)
+    inits = []
+    for f in P.functions():
+        for c in f.calls():
+            if c.callee and c.callee.endswith('region32_init') and c.a and f.last_field(f.path(c.a[0])) and f.last_field(f.path(c.a[0])).startswith('image_common.') and not f.guard_edges(c.bb.id):
+                inits.append((f, c, f.last_field(f.path(c.a[0]))))
+    if not inits:
+        ck.incomplete(R, 'no unconditional region initialisation of an image field found'); return
+    for f0, c0, fld in inits:
+        sites = []
+        for f in P.functions():
+            for c in f.calls():
+                if c.callee and c.callee.endswith('region32_fini') and c.a and f.last_field(f.path(c.a[0])) == fld and f.root(f.path(c.a[0]))[0] == 'arg':
+                    sites.append((f, c))
+        # the destructor: the function that also frees / unrefs other members
+        sites = [(f, c) for f, c in sites if any(x.callee == 'free' for x in f.calls())]
+        if not sites:
+            ck.violation(R, f0.name, 'no finalisation of %s' % fld, '%s initialises %s but no destructor finalises it' % (f0.name, fld), c0.loc()); continue
+        for f, c in sites:
+            ck.saw(f)
+            bad = None
+            for t, s in f.guard_edges(c.bb.id):
+                if not t.a:
+                    continue
+                flds = {a[1] for a in f.atoms(t.a[0]) if a[0] == 'field'}
+                if flds - {'image_common.ref_count'}:
+                    bad = (t, sorted(flds - {'image_common.ref_count'}))
+            if bad:
+                t, fl = bad
+                ck.violation(R, f.name, 'finalisation of %s' % fld, '%s finalises %s only when %s holds; the constructor sets the region up unconditionally and resetting the clip merely clears the flag, so the rectangle list of a clip that was set and later reset is never released' % (f.name, fld.split('.')[-1], ' / '.join(q.split('.')[-1] for q in fl)), c.loc())
+            else:
+                ck.ok(R, '%s finalises %s unconditionally' % (f.name, fld))
